@@ -70,22 +70,32 @@ static __thread int curKind = -1;
 
 static const size_t SZ_VSTR = sizeof(Variant::Data) + sizeof(String);
 static const size_t SZ_VLIST = sizeof(Variant::Data) + sizeof(List<Variant>);
+static const size_t SZ_VARR = sizeof(Variant::Data) + sizeof(Array<Variant>);
+static const size_t SZ_VMAP = sizeof(Variant::Data) + sizeof(HashMap<String, Variant>);
 static const size_t SZ_XTEXT = sizeof(Xml::Variant::Data) + sizeof(String);
 static const size_t SZ_XELEM = sizeof(Xml::Variant::Data) + sizeof(Xml::Element);
 
-struct Obj : public RefCount::Object
+// counted objects: Node carries a handle to the next node (a handle embedded in a payload),
+// Leaf derives from Node so that Ptr<Node> = Ptr<Leaf> goes through the converting members
+struct Node : public RefCount::Object
 {
   int val;
-  Obj(int val) : val(val) {}
-  ~Obj();
+  RefCount::Ptr<Node> next;
+  Node(int val) : val(val) {}
+  ~Node();
 };
+struct Leaf : public Node
+{
+  Leaf(int val) : Node(val) {}
+};
+typedef Leaf Obj;
 
 static bool isPayloadAlloc(size_t size, bool array)
 {
   switch(curKind)
   {
   case 0: return array;
-  case 1: return array && (size == SZ_VSTR || size == SZ_VLIST);
+  case 1: return array && (size == SZ_VSTR || size == SZ_VLIST || size == SZ_VARR || size == SZ_VMAP);
   case 2: return array && (size == SZ_XTEXT || size == SZ_XELEM);
   case 3: return !array && size == sizeof(Obj);
   default: return false;
@@ -150,7 +160,7 @@ void operator delete(void* p, unsigned long) { ledgerFree(p); }
 void operator delete[](void* p, unsigned long) { ledgerFree(p); }
 
 static int objDtorOnDead;
-Obj::~Obj()
+Node::~Node()
 {
   Rec* r = findRec(this);
   if(!r || r->frees > 0)
@@ -158,16 +168,18 @@ Obj::~Obj()
 }
 
 // ---- the handles ---------------------------------------------------------------------------------
-typedef RefCount::Ptr<Obj> ObjPtr;
+typedef RefCount::Ptr<Node> NodePtr;   // P0, P1
+typedef RefCount::Ptr<Leaf> LeafPtr;   // P2, P3
 static const int NV = 4;
 alignas(16) static unsigned char stS[NV][sizeof(String)];
 alignas(16) static unsigned char stV[NV][sizeof(Variant)];
 alignas(16) static unsigned char stX[NV][sizeof(Xml::Variant)];
-alignas(16) static unsigned char stP[NV][sizeof(ObjPtr)];
+alignas(16) static unsigned char stP[NV][sizeof(NodePtr)];
 static String* S[NV];
 static Variant* V[NV];
 static Xml::Variant* X[NV];
-static ObjPtr* P[NV];
+static NodePtr* PN[2];
+static LeafPtr* PL[2];
 static char litbuf[NV][80];
 static bool constructed;
 
@@ -180,7 +192,12 @@ static void destroyAll()
     curKind = 0; S[i]->~String();
     curKind = 1; V[i]->~Variant();
     curKind = 2; X[i]->~Variant();
-    curKind = 3; P[i]->~ObjPtr();
+  }
+  curKind = 3;
+  for(int i = 0; i < 2; ++i)
+  {
+    PN[i]->~NodePtr();
+    PL[i]->~LeafPtr();
   }
   curKind = -1;
   constructed = false;
@@ -193,7 +210,11 @@ static void constructAll()
     S[i] = new(stS[i]) String;
     V[i] = new(stV[i]) Variant;
     X[i] = new(stX[i]) Xml::Variant;
-    P[i] = new(stP[i]) ObjPtr;
+  }
+  for(int i = 0; i < 2; ++i)
+  {
+    PN[i] = new(stP[i]) NodePtr;
+    PL[i] = new(stP[2 + i]) LeafPtr;
   }
   constructed = true;
 }
@@ -235,6 +256,20 @@ static void putBlockTok(const void* p)
   printf("b%d", r->pid);
 }
 
+static void putPtrTok(RefCount::Object* refObj, Node* obj)
+{
+  if(!refObj && !obj) printf("n");
+  else if((RefCount::Object*)obj != refObj)
+  {
+    // the handle counts one object and points to another one
+    if(refObj) putBlockTok(refObj); else printf("n");
+    printf("!");
+    if(obj) putBlockTok(obj); else printf("n");
+    ++dangling;
+  }
+  else putBlockTok(refObj);
+}
+
 static void putHandles()
 {
   for(int i = 0; i < NV; ++i)
@@ -267,17 +302,28 @@ static void putHandles()
   }
   for(int i = 0; i < NV; ++i)
   {
-    if(!P[i]->refObj && !P[i]->obj) printf("n");
-    else if((RefCount::Object*)P[i]->obj != P[i]->refObj)
-    {
-      // the handle counts one object and points to another one
-      if(P[i]->refObj) putBlockTok(P[i]->refObj); else printf("n");
-      printf("!");
-      if(P[i]->obj) putBlockTok(P[i]->obj); else printf("n");
-      ++dangling;
-    }
-    else putBlockTok(P[i]->refObj);
+    if(i < 2) putPtrTok(PN[i]->refObj, PN[i]->obj); else putPtrTok(PL[i - 2]->refObj, PL[i - 2]->obj);
     printf(i + 1 < NV ? " " : "");
+  }
+}
+
+// payloads designated only by a handle embedded in another payload get their id after the variables
+static void closePids()
+{
+  for(int i = 0; i < npid; ++i)
+  {
+    Rec& r = rec[pidRec[i]];
+    if(r.kind != 3 || r.frees != 0)
+      continue;
+    Node* n = (Node*)r.addr;
+    if(!n->next.refObj)
+      continue;
+    Rec* t = findRec(n->next.refObj);
+    if(t && t->addr == (char*)n->next.refObj && t->payload && t->pid < 0)
+    {
+      t->pid = npid;
+      pidRec[npid++] = (int)(t - rec);
+    }
   }
 }
 
@@ -307,6 +353,23 @@ static void putPayload(int pid)
     {
       const String* s = (const String*)(d + 1);
       tag = 12; bytes = s->data->str; len = s->data->len;
+    }
+    else if(d->type == Variant::arrayType)
+    {
+      const Array<Variant>* a = (const Array<Variant>*)(d + 1);
+      tag = 14;
+      for(usize i = 0; i < a->size() && len < sizeof(buf); ++i)
+        buf[len++] = (unsigned char)(*a)[i].toInt();
+    }
+    else if(d->type == Variant::mapType)
+    {
+      const HashMap<String, Variant>* m = (const HashMap<String, Variant>*)(d + 1);
+      tag = 15;
+      for(HashMap<String, Variant>::Iterator i = m->begin(), end = m->end(); i != end && len + 1 < sizeof(buf); ++i)
+      {
+        buf[len++] = (unsigned char)*(const char*)i.key();
+        buf[len++] = (unsigned char)i->toInt();
+      }
     }
     else if(d->type == Variant::listType)
     {
@@ -345,12 +408,19 @@ static void putPayload(int pid)
   }
   printf("%d:L:%lu:%d:", pid, ref, tag);
   hxPutHex(bytes, len);
+  if(r.kind == 3)
+  {
+    Node* n = (Node*)r.addr;
+    printf(">");
+    putPtrTok(n->next.refObj, n->next.obj);
+  }
 }
 
 static void observe()
 {
   dangling = 0;
   putHandles();
+  closePids();
   printf(" | ");
   if(npid == 0) printf("-");
   for(int i = 0; i < npid; ++i)
@@ -369,67 +439,82 @@ static void observe()
 struct OpRec
 {
   char name[12];
-  int a, b;
+  int a, b, c;
   unsigned char bytes[80];
   size_t len;
 };
 
+// argument patterns: i = handle index 0..3, n = number 0..255, h = hex bytes
+static const struct { const char* name; const char* args; } OPTAB[] = {
+  {"snew", "ih"}, {"slit", "ih"}, {"scopy", "ii"}, {"sassign", "ii"}, {"sclear", "i"}, {"sappend", "ih"}, {"sreserve", "in"},
+  {"sdel", "i"}, {"sset", "ih"}, {"sprepend", "ih"}, {"sresize", "in"}, {"sreplace", "inn"}, {"slower", "i"}, {"schar", "i"},
+  {"sprintf", "in"},
+  {"vcopy", "ii"}, {"vassign", "ii"}, {"vclear", "i"}, {"vseti", "in"}, {"vsets", "ih"}, {"vapp", "ih"}, {"vpush", "in"},
+  {"vswap", "ii"}, {"vsetl", "in"}, {"vpusha", "in"}, {"vseta", "in"}, {"vputm", "inn"}, {"vsetm", "inn"},
+  {"xcopy", "ii"}, {"xassign", "ii"}, {"xclear", "i"}, {"xsets", "ih"}, {"xelem", "ih"},
+  {"pnew", "in"}, {"pcopy", "ii"}, {"passign", "ii"}, {"pclear", "i"}, {"pswap", "ii"}, {"praw", "ii"}, {"pctor", "ii"},
+  {"plink", "ii"}, {"pnext", "i"}, {"pnextof", "ii"},
+  {0, 0}};
+
 static bool parseOp(char** tok, int ntok, OpRec& o)
 {
-  static const char* const idx2[] = {"scopy", "sassign", "vcopy", "vassign", "vswap", "xcopy", "xassign", "pcopy", "passign", "pswap", 0};
-  static const char* const idx1[] = {"sclear", "sdel", "vclear", "xclear", "pclear", 0};
-  static const char* const idxNum[] = {"sreserve", "vseti", "vpush", "vsetl", "pnew", 0};
-  static const char* const idxHex[] = {"snew", "slit", "sappend", "sset", "vsets", "vapp", "xsets", "xelem", 0};
   if(ntok < 2 || strlen(tok[0]) >= sizeof(o.name))
+    return false;
+  const char* args = 0;
+  for(int i = 0; OPTAB[i].name; ++i)
+    if(!strcmp(tok[0], OPTAB[i].name))
+      args = OPTAB[i].args;
+  if(!args || (int)strlen(args) != ntok - 1)
     return false;
   strcpy(o.name, tok[0]);
   o.len = 0;
-  o.b = 0;
-  char* end = 0;
-  o.a = (int)strtoul(tok[1], &end, 10);
-  if(*end || o.a < 0 || o.a >= NV)
-    return false;
-  for(int i = 0; idx1[i]; ++i)
-    if(!strcmp(tok[0], idx1[i]))
-      return ntok == 2;
-  if(ntok != 3)
-    return false;
-  for(int i = 0; idx2[i]; ++i)
-    if(!strcmp(tok[0], idx2[i]))
+  o.a = o.b = o.c = 0;
+  int* dst[3] = {&o.a, &o.b, &o.c};
+  for(int k = 0; args[k]; ++k)
+  {
+    const char* t = tok[1 + k];
+    if(args[k] == 'h')
     {
-      o.b = (int)strtoul(tok[2], &end, 10);
-      return !*end && o.b >= 0 && o.b < NV;
-    }
-  for(int i = 0; idxNum[i]; ++i)
-    if(!strcmp(tok[0], idxNum[i]))
-    {
-      o.b = (int)strtoul(tok[2], &end, 10);
-      return !*end && o.b >= 0 && o.b < 256;
-    }
-  for(int i = 0; idxHex[i]; ++i)
-    if(!strcmp(tok[0], idxHex[i]))
-    {
-      if(!strcmp(tok[2], "-"))
-        return true;
-      size_t n = strlen(tok[2]);
+      if(!strcmp(t, "-"))
+        continue;
+      size_t n = strlen(t);
       if(n % 2 || n / 2 > 64)
         return false;
-      for(size_t k = 0; k < n; ++k)
-        if(hxNib(tok[2][k]) < 0)
+      for(size_t j = 0; j < n; ++j)
+        if(hxNib(t[j]) < 0)
           return false;
-      for(size_t k = 0; k < n / 2; ++k)
-        o.bytes[k] = (unsigned char)(hxNib(tok[2][2 * k]) * 16 + hxNib(tok[2][2 * k + 1]));
+      for(size_t j = 0; j < n / 2; ++j)
+        o.bytes[j] = (unsigned char)(hxNib(t[2 * j]) * 16 + hxNib(t[2 * j + 1]));
       o.len = n / 2;
-      return true;
     }
-  return false;
+    else
+    {
+      char* end = 0;
+      long v = strtol(t, &end, 10);
+      if(*end || !*t || v < 0 || v >= (args[k] == 'i' ? NV : 256))
+        return false;
+      *dst[k] = (int)v;
+    }
+  }
+  return true;
 }
 
-static void execOp(const OpRec& o)
+// Ptr ops on the statically typed handles (P0,P1: Ptr<Node>; P2,P3: Ptr<Leaf>)
+template <class DP, class SP> static void ptrOp(const char* n, DP& d, SP& s, unsigned char* storage)
+{
+  if(!strcmp(n, "pcopy")) { d.~DP(); new(storage) DP(s); }                  // copy / converting constructor
+  else if(!strcmp(n, "passign")) d = s;                                     // operator= / converting operator=
+  else if(!strcmp(n, "praw")) d = s.obj;                                    // operator=(C*)
+  else if(!strcmp(n, "pctor")) { d.~DP(); new(storage) DP(s.obj); }         // Ptr(D*)
+}
+
+// returns false for calls that do not compile / are outside the exercised scope (the model says bad-op too)
+static bool execOp(const OpRec& o)
 {
   const char* n = o.name;
   const int d = o.a, s = o.b;
   const char* bytes = (const char*)o.bytes;
+  bool ok = true;
   switch(n[0])
   {
   case 's':
@@ -443,6 +528,12 @@ static void execOp(const OpRec& o)
     else if(!strcmp(n, "sreserve")) S[d]->reserve((usize)s);
     else if(!strcmp(n, "sdel")) { S[d]->~String(); new(stS[d]) String; }
     else if(!strcmp(n, "sset")) *S[d] = String(bytes, o.len);
+    else if(!strcmp(n, "sprepend")) S[d]->prepend(bytes, o.len);
+    else if(!strcmp(n, "sresize")) { if((usize)s <= S[d]->length()) S[d]->resize((usize)s); else ok = false; }
+    else if(!strcmp(n, "sreplace")) S[d]->replace((char)o.b, (char)o.c);
+    else if(!strcmp(n, "slower")) S[d]->toLowerCase();
+    else if(!strcmp(n, "schar")) { char* p = *S[d]; (void)p; }
+    else if(!strcmp(n, "sprintf")) S[d]->printf("%d", s);
     break;
   case 'v':
     curKind = 1;
@@ -455,6 +546,10 @@ static void execOp(const OpRec& o)
     else if(!strcmp(n, "vpush")) V[d]->toList().append(Variant((int)s));
     else if(!strcmp(n, "vswap")) V[d]->swap(*V[s]);
     else if(!strcmp(n, "vsetl")) { List<Variant> l; l.append(Variant((int)s)); *V[d] = l; }
+    else if(!strcmp(n, "vpusha")) V[d]->toArray().append(Variant((int)s));
+    else if(!strcmp(n, "vseta")) { Array<Variant> a; a.append(Variant((int)s)); *V[d] = a; }
+    else if(!strcmp(n, "vputm")) { char k = (char)o.b; V[d]->toMap().append(String(&k, 1), Variant((int)o.c)); }
+    else if(!strcmp(n, "vsetm")) { char k = (char)o.b; HashMap<String, Variant> m; m.append(String(&k, 1), Variant((int)o.c)); *V[d] = m; }
     break;
   case 'x':
     curKind = 2;
@@ -466,14 +561,39 @@ static void execOp(const OpRec& o)
     break;
   case 'p':
     curKind = 3;
-    if(!strcmp(n, "pnew")) *P[d] = new Obj(s);
-    else if(!strcmp(n, "pcopy")) { if(d != s) { P[d]->~ObjPtr(); new(stP[d]) ObjPtr(*P[s]); } }
-    else if(!strcmp(n, "passign")) *P[d] = *P[s];
-    else if(!strcmp(n, "pclear")) *P[d] = ObjPtr();
-    else if(!strcmp(n, "pswap")) P[d]->swap(*P[s]);
+    if(!strcmp(n, "pnew")) { if(d < 2) *PN[d] = new Leaf(s); else *PL[d - 2] = new Leaf(s); }
+    else if(!strcmp(n, "pclear")) { if(d < 2) *PN[d] = NodePtr(); else *PL[d - 2] = LeafPtr(); }
+    else if(!strcmp(n, "pswap"))
+    {
+      if(d < 2 && s < 2) PN[d]->swap(*PN[s]);
+      else if(d >= 2 && s >= 2) PL[d - 2]->swap(*PL[s - 2]);
+      else ok = false;
+    }
+    else if(!strcmp(n, "pcopy") || !strcmp(n, "passign") || !strcmp(n, "praw") || !strcmp(n, "pctor"))
+    {
+      if(d == s && (!strcmp(n, "pcopy") || !strcmp(n, "pctor"))) ;
+      else if(d < 2 && s < 2) ptrOp(n, *PN[d], *PN[s], stP[d]);
+      else if(d < 2) ptrOp(n, *PN[d], *PL[s - 2], stP[d]);
+      else if(s >= 2) ptrOp(n, *PL[d - 2], *PL[s - 2], stP[d]);
+      else ok = false;
+    }
+    else if(!strcmp(n, "plink"))
+    {
+      Node* target = d < 2 ? PN[d]->obj : PL[d - 2]->obj;
+      if(!target) ok = false;
+      else if(s < 2) target->next = *PN[s];
+      else target->next = *PL[s - 2];
+    }
+    else if(!strcmp(n, "pnext")) { if(d < 2 && PN[d]->obj) *PN[d] = (*PN[d])->next; else ok = false; }
+    else if(!strcmp(n, "pnextof"))
+    {
+      Node* src = s < 2 ? PN[s]->obj : PL[s - 2]->obj;
+      if(d < 2 && src) *PN[d] = src->next; else ok = false;
+    }
     break;
   }
   curKind = -1;
+  return ok;
 }
 
 // ---- controlled scheduler ---------------------------------------------------------------------------
@@ -621,8 +741,8 @@ int main(int argc, char** argv)
 {
   if(argc > 1 && !strcmp(argv[1], "--probe"))
   {
-    printf("hooks=%d vstr=%lu vlist=%lu xtext=%lu xelem=%lu obj=%lu\n", haveHooks, (unsigned long)SZ_VSTR,
-      (unsigned long)SZ_VLIST, (unsigned long)SZ_XTEXT, (unsigned long)SZ_XELEM, (unsigned long)sizeof(Obj));
+    printf("hooks=%d vstr=%lu vlist=%lu varr=%lu vmap=%lu xtext=%lu xelem=%lu obj=%lu\n", haveHooks, (unsigned long)SZ_VSTR,
+      (unsigned long)SZ_VLIST, (unsigned long)SZ_VARR, (unsigned long)SZ_VMAP, (unsigned long)SZ_XTEXT, (unsigned long)SZ_XELEM, (unsigned long)sizeof(Obj));
     return 0;
   }
   HxLine l;
@@ -681,8 +801,10 @@ int main(int argc, char** argv)
     }
     else if(parseOp(l.tok, l.ntok, o))
     {
-      execOp(o);
-      observe();
+      if(execOp(o))
+        observe();
+      else
+        printf("bad-op");
     }
     else
       printf("bad-op");
